@@ -324,3 +324,98 @@ def height_closures(fn: ast.FunctionDef, hchain: str = "self.bhe.b.H"):
                 if isinstance(s_, ast.Assign) and any(attr_chain(t) == hchain for t in s_.targets) and isinstance(s_.value, ast.Name) and s_.value.id in ps:
                     out[n.name] = ps.index(s_.value.id)
     return out
+
+
+# ---------------------------------------------------------------------------
+def sweep_start_is_feasible_end(prog: Program, fi) -> tuple:
+    """the reason for which the row-wise sweep may accept its FIRST candidate without a test: the sweep starts at the spacing of
+    the bracket end the bisection knows to be feasible.  Checked on the syntax tree:
+      * the list the sweep iterates is filled by  while cur <= lim: LIST.append(cur); cur += step  and cur starts as a plain
+        copy of one local F;
+      * every assignment  F = V  in the function sits under a test that establishes  T < 0  or  T <= 0  for a local
+        T = self.calculate_excess(FIELD, ...) whose FIELD comes from a field generator called with spacing V.
+    -> (ok, description)"""
+    fn = fi.node
+    gens = {}
+    for name in FIELD_GENERATORS:
+        q = f"ghedesigner.rowwise.{name}"
+        if prog.has_func(q):
+            ps = prog.func(q).params()
+            gens[name] = next((i for i, p_ in enumerate(ps) if p_ in ("space_start", "spacing", "target_spacing")), None)
+    field_spacing = {}   # field local -> set of spacing expressions (text) it was generated with
+    excess_of = {}       # excess local -> field local
+    for s in ast.walk(fn):
+        if isinstance(s, ast.Assign) and len(s.targets) == 1 and isinstance(s.value, ast.Call):
+            cn = attr_chain(s.value.func)
+            if cn in gens and gens[cn] is not None and len(s.value.args) > gens[cn]:
+                t = s.targets[0]
+                f0 = t.elts[0] if isinstance(t, ast.Tuple) and t.elts else t
+                if isinstance(f0, ast.Name):
+                    field_spacing.setdefault(f0.id, set()).add(ast.unparse(s.value.args[gens[cn]]))
+            if cn == "self.calculate_excess" and s.value.args and isinstance(s.value.args[0], ast.Name) and isinstance(s.targets[0], ast.Name):
+                excess_of[s.targets[0].id] = s.value.args[0].id
+
+    def nonpositive_names(test) -> set:
+        out = set()
+        parts = test.values if isinstance(test, ast.BoolOp) and isinstance(test.op, ast.And) else [test]
+        for p_ in parts:
+            if isinstance(p_, ast.Compare):
+                terms = [p_.left] + p_.comparators
+                for a, op, b in zip(terms, p_.ops, terms[1:]):
+                    if isinstance(a, ast.Name) and isinstance(b, ast.Constant) and b.value == 0 and isinstance(op, (ast.Lt, ast.LtE)):
+                        out.add(a.id)
+                    if isinstance(b, ast.Name) and isinstance(a, ast.Constant) and a.value == 0 and isinstance(op, (ast.Gt, ast.GtE)):
+                        out.add(b.id)
+        return out
+
+    def positive_names(test) -> set:
+        """names T for which a SINGLE comparison test says T > 0 (its failing therefore says T <= 0)"""
+        out = set()
+        if isinstance(test, ast.Compare) and len(test.ops) == 1:
+            a, op, b = test.left, test.ops[0], test.comparators[0]
+            if isinstance(a, ast.Name) and isinstance(b, ast.Constant) and b.value == 0 and isinstance(op, ast.Gt):
+                out.add(a.id)
+            if isinstance(b, ast.Name) and isinstance(a, ast.Constant) and a.value == 0 and isinstance(op, ast.Lt):
+                out.add(b.id)
+        return out
+
+    def guards_of(stmt):
+        """names known to be <= 0 where stmt runs: from the tests of the ifs whose body contains it, and - the load-time
+        normalisation writes  if T <= 0: A else: B  as  if 0 < T: B else: A  - from the failed tests of those whose else does"""
+        out = set()
+        for n in ast.walk(fn):
+            if isinstance(n, ast.If):
+                if any(stmt is x for b_ in n.body for x in ast.walk(b_)):
+                    out |= nonpositive_names(n.test)
+                elif any(stmt is x for b_ in n.orelse for x in ast.walk(b_)):
+                    out |= positive_names(n.test)
+        return out
+
+    # the sweep list
+    start = None
+    for w in ast.walk(fn):
+        if isinstance(w, ast.While) and isinstance(w.test, ast.Compare) and isinstance(w.test.left, ast.Name):
+            cur = w.test.left.id
+            apps = [c for c in ast.walk(w) if isinstance(c, ast.Call) and isinstance(c.func, ast.Attribute) and c.func.attr == "append" and len(c.args) == 1 and isinstance(c.args[0], ast.Name) and c.args[0].id == cur]
+            if not apps:
+                continue
+            inits = [s for s in ast.walk(fn) if isinstance(s, ast.Assign) and len(s.targets) == 1 and isinstance(s.targets[0], ast.Name) and s.targets[0].id == cur and s.lineno < w.lineno]
+            if len(inits) == 1 and isinstance(inits[0].value, ast.Name):
+                start = inits[0].value.id
+            else:
+                return False, f"the sweep's first spacing '{cur}' does not start as a plain copy of one local ({[ast.unparse(s.value)[:30] for s in inits]})"
+    if start is None:
+        return False, "the list of sweep spacings (while cur <= lim: list.append(cur)) was not found"
+    assigns = [s for s in ast.walk(fn) if isinstance(s, ast.Assign) and len(s.targets) == 1 and isinstance(s.targets[0], ast.Name) and s.targets[0].id == start]
+    if not assigns:
+        return False, f"'{start}' is never assigned"
+    for s in assigns:
+        v = ast.unparse(s.value)
+        ok = False
+        for T in guards_of(s):
+            fld = excess_of.get(T)
+            if fld is not None and v in field_spacing.get(fld, ()):
+                ok = True
+        if not ok:
+            return False, f"'{norm_stmt(s)}' is not under a test that found the field generated at {v} to meet the limits (excess <= 0)"
+    return True, f"the sweep starts at '{start}', which is only ever set to a spacing whose field was found to meet the limits"
